@@ -809,15 +809,15 @@ theorem canonRules_wf (O : Oracle) (M : List Cps) (ns : List (Cps × Cps)) (im :
       (canonRule lv r).WF O M ns im ∧ (canonRules lv inner rest).WF O M ns im)
 end
 
-theorem canon_wf_aux (O : Oracle) (M : List Cps) (s : SSheet) (h : s.WF O M) (hs : HrefSafe s)
-    (ha : Accepts O (canon s)) (ht : TidyL (render s)) : (canon s).WF O M := by
-  have hns : nsPairs (canon s).namespaces = nsPairs s.namespaces := nsPairs_layStmts _ _
+theorem canonV_wf (O : Oracle) (M : List Cps) (s : SSheet) (h : s.WF O M) (hs : HrefSafe s)
+    (ha : Accepts O (canonV s)) (ht : TidyL (render s)) : (canonV s).WF O M := by
+  have hns : nsPairs (canonV s).namespaces = nsPairs s.namespaces := nsPairs_layStmts _ _
   refine ⟨?_, ?_, ?_, ?_, ?_, ?_⟩
   · intro c hc
     cases hcs : s.charset with
-    | none => simp [canon, hcs] at hc
+    | none => simp [canonV, hcs] at hc
     | some c0 =>
-      have e : c = (Quote.dq, c0.2) := by simp [canon, hcs] at hc; exact hc.symm
+      have e : c = (Quote.dq, c0.2) := by simp [canonV, hcs] at hc; exact hc.symm
       exact ⟨by rw [e]; exact (h.charsetOk c0 hcs).1, ha.charset c hc⟩
   · intro p hp
     obtain ⟨q, hq, e⟩ := layStmts_mem _ _ _ p hp
